@@ -268,6 +268,8 @@ func main() {
 
 func classify(msg string) string {
 	switch {
+	case strings.Contains(msg, "closed itself"):
+		return "transport-closed-itself"
 	case strings.Contains(msg, "_opid is"):
 		return "foreign-opid"
 	case strings.Contains(msg, "completed with payload"):
